@@ -272,7 +272,7 @@ func Run(ctx *common.Ctx) int {
 		cat := fast.Catalogue(w)
 		for _, W := range []int{1, 2} {
 			// bound 0 under three policies: one and two short reads at every index, uniform policies
-			for _, pol := range []int{0, 1, 2} {
+			for _, pol := range []int{0, 1, 2, 3} {
 				var specs []fast.SrcSpec
 				for i := 0; i < w.S+2; i++ {
 					for _, a := range sizes {
@@ -324,6 +324,9 @@ func Run(ctx *common.Ctx) int {
 						sp = append(sp, fast.SrcSpec{Kind: "short", Index: i, Index2: -1, Size: a})
 					}
 					tasks = append(tasks, mk(w, cat[0].Name, W, 1, 0, sp, fmt.Sprintf("idx%d", i)))
+					if w.Name == "Period" || !quick {
+						tasks = append(tasks, mk(w, cat[0].Name, W, 1, 3, sp, fmt.Sprintf("idx%d", i)))
+					}
 				}
 				if !quick && w.Name == "Period" {
 					for _, i := range []int{0, 1, 10, 19} {
@@ -355,7 +358,7 @@ func Run(ctx *common.Ctx) int {
 	cov["sequential_history_runs"] = int(evals)
 	cov["parallel_schedules"] = m.Execs
 	cov["rule"] = "read-size history = per-Read answer from {all requested, 1, ceil(req/2), req-1}; sequential workflows: every history with <= 2 deviations at every Read index (Factory/PowerOn: adjacent and far pairs in quick) plus uniform policies, on three verdict-sensitive marker-stream scenarios; " +
-		"SingleDetect: all 2^15 compositions of 16 bytes (thorough also all 2^19 of 20), <= 2 cut points for 40/1280(/4096) bytes; parallel workflows under the controlled scheduler: <= 2 short reads at every Read index and uniform policies at deviation bound 0 under three default policies, one short read x one scheduling deviation (W=2) at bound 1; " +
+		"SingleDetect: all 2^15 compositions of 16 bytes (thorough also all 2^19 of 20), <= 2 cut points for 40/1280(/4096) bytes; parallel workflows under the controlled scheduler: <= 2 short reads at every Read index and uniform policies at deviation bound 0 under four default policies, one short read x one scheduling deviation (W=2) at bound 1; " +
 		"distinct = distinct (workflow, scenario, history) and distinct schedule outcome signatures"
 	cov["exhaustive"] = cov["exhaustive"].(bool) && !capped
 	return ctx.Finish("fault_enumeration", cov, []string{
